@@ -70,7 +70,10 @@ func GenScript(r *hx.Rand, kinds []string, nops int) []string {
 		script = append(script, fmt.Sprintf("obj 0 %s parent %s", insts[r.Intn(len(insts))], strings.Join(cs, ",")))
 		total++
 	}
-	chunkings := []string{"w", "w", "1", "h", "3", "e"}
+	if kind != "ac" && r.Chance(1, 5) {
+		return genAging(r, script[:1], kind, insts, bm)
+	}
+	chunkings := []string{"w", "w", "1", "h", "3", "e", "rw", "rh", "r3", "r1"}
 	faults := []string{"none", "none", "none", "none", "none", "none", "short", "long", "badhash", "err0", "err1"}
 	nextOp := 0
 	var open []int
@@ -120,6 +123,65 @@ func GenScript(r *hx.Rand, kinds []string, nops int) []string {
 	return script
 }
 
+// genAging is a directed family: one small object (under one or, where the store distinguishes them, two instance
+// names), block-sized fillers that age it through new -> current -> old, touches at every stage through Get and
+// FindMissing under both names, then more fillers and reads. It makes the refresh paths (copy out of an old block, sync
+// from the canonical entry, refresh by FindMissing) and what follows them common instead of rare.
+func genAging(r *hx.Rand, script []string, kind string, insts []string, bm bmx.Config) []string {
+	bs := bm.BlockSize()
+	small := r.PickInt(1, 2, bm.Sector, bm.Sector+1, bs/2)
+	if small > bs {
+		small = bs
+	}
+	a, b := insts[r.Intn(len(insts))], insts[r.Intn(len(insts))]
+	script = append(script, fmt.Sprintf("obj %d %s", small, a)) // 0
+	if kind == "flat" {
+		script = append(script, fmt.Sprintf("obj %d %s", small, b)) // 1: another small object
+	} else {
+		script = append(script, fmt.Sprintf("obj 0 %s alias 0", b)) // 1: same content, other name
+	}
+	fill := r.PickInt(bs, bs, bs-1, bs/2+1)
+	nfill := 4
+	for i := 0; i < nfill; i++ {
+		script = append(script, fmt.Sprintf("obj %d %s", fill, insts[r.Intn(len(insts))])) // 2..
+	}
+	op := 0
+	put := func(o int) {
+		script = append(script, fmt.Sprintf("put %d %d 0 %s none", op, o, []string{"w", "h", "rw"}[r.Intn(3)]), fmt.Sprintf("run %d", op))
+		op++
+	}
+	touch := func() {
+		for _, o := range r.Perm(2) {
+			switch r.Intn(4) {
+			case 0:
+				script = append(script, fmt.Sprintf("fm %d", o))
+			case 1:
+				script = append(script, "fm 0 1")
+			default:
+				script = append(script, fmt.Sprintf("get %d", o))
+			}
+		}
+	}
+	put(0)
+	if r.Chance(2, 3) {
+		put(1)
+	}
+	rounds := r.Range(2, 4)
+	for k := 0; k < rounds; k++ {
+		for i := 0; i < r.Range(1, bm.Old+bm.Cur+bm.New+1); i++ {
+			put(2 + r.Intn(nfill))
+		}
+		if r.Chance(3, 4) {
+			touch()
+		}
+		if r.Chance(1, 3) {
+			put(1)
+		}
+	}
+	touch()
+	return script
+}
+
 // Main is the body of the store-level tests. props lists the property ids whose oracle findings this test reports.
 func Main(run *hx.Run, model *hx.Model, label string, props []string, kinds []string, quick, thorough int) {
 	// make sure the index metrics exist before reading them
@@ -149,6 +211,7 @@ func Main(run *hx.Run, model *hx.Model, label string, props []string, kinds []st
 		}
 		return fs
 	}
+	disagreements, oracles := 0, 0
 	handle := func(name string, script []string) {
 		r := RunCase(model, dr, name, script)
 		var fs []hx.Finding
@@ -188,6 +251,17 @@ func Main(run *hx.Run, model *hx.Model, label string, props []string, kinds []st
 					break
 				}
 			}
+			if first.Kind != "oracle" {
+				// model and implementation differ: report (and shrink) the first such case only and keep going, so
+				// that the oracles get the chance to find an input on which the property itself fails
+				disagreements++
+				if disagreements > 1 {
+					run.Count("disagreement-repeat")
+					return
+				}
+			} else {
+				oracles++
+			}
 			small := hx.Shrink(script, 1, func(sc []string) bool {
 				for _, f := range exec(name, sc) {
 					if f.What == first.What {
@@ -226,7 +300,7 @@ func Main(run *hx.Run, model *hx.Model, label string, props []string, kinds []st
 		handle("corpus/"+name, script)
 	}
 	n := run.Scale(quick, thorough)
-	for i := 0; i < n && run.Findings() < 10; i++ {
+	for i := 0; i < n && oracles < 5 && run.Findings() < 12; i++ {
 		r := hx.NewRand(run.Seed, label, i)
 		handle(fmt.Sprintf("seed%d/case%d", run.Seed, i), GenScript(r, kinds, r.Range(5, 60)))
 	}
